@@ -86,7 +86,7 @@ def export_db(ctx):
     forms = [json.loads(l) for l in open(ctx.path("forms.ndjson"))]
     if len(rw) != len(forms) or any(a["name"] != b["name"] for a, b in zip(rw, forms)):
         raise Broken("rwforms.ndjson and forms.ndjson do not describe the same rows")
-    return rw, forms
+    return rw, forms, json.load(open(ctx.path("names.json")))
 
 
 def scope_of(f):
@@ -94,7 +94,38 @@ def scope_of(f):
     if f["priv"] != "L3": return "privileged"
     if f["ctl"] != "none": return "control-flow"
     if "APX_F" in f["ext"] or f["pk"] == "U": return "APX (not implemented by the pinned release)"
+    if "AVX10_2" in f["ext"]: return "AVX10.2 (not implemented by the pinned release)"
     return ""
+
+
+VEC = ("xmm", "ymm", "zmm")
+
+
+def op_fits(fo, x):
+    """python twin of OpFits in X86Enc.tla (C01): does the request operand x have the kind / class the row operand fo admits"""
+    if x["t"] == "r": return x["c"] in fo["regs"] and (fo["fixed"] < 0 or fo["fixed"] == x["id"])
+    if x["t"] == "m":
+        if fo["msz"] < 0: return False
+        if not (fo["msz"] == 0 or x["sz"] == 0 or x["sz"] == fo["msz"] or (x["bc"] and fo["bcst"] and x["sz"] * 8 == fo["bcst"])): return False
+        if x["bc"] and not fo["bcst"]: return False
+        return (x["it"] not in VEC) if not fo["vsib"] else x["it"] == fo["vsib"]
+    if x["t"] == "i": return fo["ibits"] > 0 or fo["iconst"] >= 0
+    return False
+
+
+def needs_evex_row(o):
+    return any((x["t"] == "r" and x["c"] in VEC and x["id"] >= 16) or (x["t"] == "m" and x["it"] in VEC and x["i"] >= 16) for x in o["ops"])
+
+
+def has_evex_row(o, rw, forms, names):
+    """a request that uses xmm/ymm/zmm16..31 is a form of the database only if an EVEX row of the instruction has this operand signature
+    (the validator accepts such ids for every signature: C01/C13's finding, not C12's question)"""
+    for t in names.get(o["n"], []):
+        f, r = forms[t - 1], rw[t - 1]
+        if r["pk"] != "E" or scope_of(r): continue
+        if not (f["arch"] == "ANY" or (f["arch"] == "X64") == (o["m"] == 64)): continue
+        if len(f["ops"]) == len(o["ops"]) and all(op_fits(fo, x) for fo, x in zip(f["ops"], o["ops"])): return True
+    return False
 
 
 def tlc_pointwise(ctx, recs, tag, kind, env, shards, workers=2, timeout=2400, heap="3g"):
@@ -295,7 +326,7 @@ def run_a64(ctx, bdir, env):
 
 
 # ======================================================================================================================
-def prepare(ctx, bdir, rw, obs_lines):
+def prepare(ctx, bdir, rw, obs_lines, forms, names):
     """scope filter + bookkeeping.  Returns list of observation dicts in scope and accepted by validate."""
     kept = []
     stats = collections.Counter()
@@ -308,6 +339,8 @@ def prepare(ctx, bdir, rw, obs_lines):
             stats["out-of-scope: " + why] += 1; names_out[why].add(o["n"]); continue
         if o["val"] != 0:
             stats["not accepted by InstAPI::validate"] += 1; continue
+        if needs_evex_row(o) and not has_evex_row(o, rw, forms, names):
+            stats["not a database form: vector register id >= 16 for a signature without EVEX row (C01/C13)"] += 1; continue
         kept.append(o)
     return kept, stats, names_out
 
@@ -316,7 +349,7 @@ def run(ctx):
     q = ctx.quick
     t0 = time.time()
     fixes = os.path.join(vlib.VERIF, "out", "C12dev")
-    rw, forms = export_db(ctx)
+    rw, forms, names = export_db(ctx)
     bdir = ctx.build("plain", "rwinfo", "rwexec")
     p = subprocess.run([os.path.join(bdir, "rwinfo"), "featnames"], stdout=subprocess.PIPE, text=True, timeout=60)
     open(ctx.path("featnames.json"), "w").write(p.stdout)
@@ -331,7 +364,7 @@ def run(ctx):
     rc, _, err = vlib.run_harness(ctx, bdir, "rwinfo", ["x86", ctx.path("forms.ndjson"), allp, ctx.tier], timeout=1200, env={"VERIF_SEED": ctx.seed})
     if rc != 0:
         raise Broken(f"rwinfo failed rc={rc}: {err[-1200:]}")
-    obs, stats, names_out = prepare(ctx, bdir, rw, open(allp))
+    obs, stats, names_out = prepare(ctx, bdir, rw, open(allp), forms, names)
     os.remove(allp)
     if len(obs) < 5000:
         raise Broken(f"only {len(obs)} observations in scope")
@@ -431,6 +464,22 @@ def run(ctx):
             kk = key_of(clause, arg, obs[k])
             dbv_classes[kk] += 1
             dbv_examples.setdefault(kk, describe(obs[k]))
+    # feature observations by sweep dimension / boundary id pattern / emitted encoding kind
+    def em_kind(o):
+        b = list(o.get("b", []))
+        while b and b[0] in (0x66, 0x67, 0xF0, 0xF2, 0xF3, 0x26, 0x2E, 0x36, 0x3E, 0x64, 0x65): b.pop(0)
+        if o.get("ae", 1) != 0 or not b: return "not-emitted"
+        return {0x62: "EVEX", 0xC4: "VEX", 0xC5: "VEX", 0x8F: "XOP-or-pop"}.get(b[0], "legacy")
+    dims = collections.Counter(o.get("dim", "base") for o in obs)
+    kinds = collections.Counter((o.get("dim", "base"), em_kind(o)) for o in obs)
+    bid_pat = collections.Counter()
+    bid_forms = set()
+    for o in obs:
+        if o.get("dim") == "bid":
+            bid_forms.add(o["f"])
+            for j, x in enumerate(o["ops"]):
+                if x["t"] == "r" and x["c"] in ("xmm", "ymm", "zmm") and x["id"] in (0, 7, 8, 15, 16, 17, 31):
+                    bid_pat[f"{x['c']}{x['id']}@op{j}:{em_kind(o)}:{'+'.join(o['feat'][:4])}"] += 1
     inscope_rows = {f["id"] for f in rw if not scope_of(f)}
     rows1 = {o["f"] for o in obs}
     rows2 = {o["f"] for o in judged2}
@@ -439,6 +488,8 @@ def run(ctx):
     ctx.evaluations = len(obs) + len(a64recs)
     ctx.extra.update({
         "host_cpu_features": host,
+        "observations_by_dimension": dict(dims), "observations_by_dimension_and_emitted_encoding": {f"{a}:{b}": c for (a, b), c in kinds.most_common()},
+        "boundary_id_rows": len(bid_forms), "boundary_id_feature_observations": dict(bid_pat.most_common(400)),
         "db_rows_total": len(rw), "db_rows_in_scope": len(inscope_rows), "db_rows_judged_leg1": len(rows1), "db_rows_executed_leg2": len(rows2),
         "observations_leg1": len(obs), "observations_executed_leg2": len(judged2), "states_per_observation": states,
         "out_of_scope": {k: v for k, v in stats.items()}, "out_of_scope_instructions": {k: sorted(v)[:400] for k, v in names_out.items()},
@@ -470,7 +521,7 @@ def run(ctx):
 
 
 def replay(ctx, path):
-    rw, forms = export_db(ctx)
+    rw, forms, names = export_db(ctx)
     bdir = ctx.build("plain", "rwinfo", "rwexec")
     p = subprocess.run([os.path.join(bdir, "rwinfo"), "featnames"], stdout=subprocess.PIPE, text=True, timeout=60)
     open(ctx.path("featnames.json"), "w").write(p.stdout)
